@@ -28,9 +28,9 @@ type c07Params struct {
 
 func init() {
 	register(&c07{base{
-		id:    "C07",
-		level: lvlExploration,
-		rule: "exhaustive mode: for every (coder, data shards d=1..6, parity shards p=1..4) ALL 2^d missing-data x 2^p missing-parity subsets x shard lengths x goroutine counts are reconstructed from random shard contents; random mode: seeded larger codes and erasure patterns; singular mode: analytically constructed singular PAR2-Vandermonde sub-systems and their non-singular neighbours; limits: documented size limits. Oracle: success is demanded iff |missing| <= |available parity| and (Vandermonde) the forced sub-matrix (lowest available parity rows x missing columns) is non-singular by the reference elimination. A key is (coder,d,p,missing set,available-parity set,len,g); trivial = nothing missing",
+		id:          "C07",
+		level:       lvlExploration,
+		rule:        "exhaustive mode: for every (coder, data shards d=1..6, parity shards p=1..4) ALL 2^d missing-data x 2^p missing-parity subsets x shard lengths x goroutine counts are reconstructed from random shard contents; random mode: seeded larger codes and erasure patterns; singular mode: analytically constructed singular PAR2-Vandermonde sub-systems and their non-singular neighbours; limits: documented size limits. Oracle: success is demanded iff |missing| <= |available parity| and (Vandermonde) the forced sub-matrix (lowest available parity rows x missing columns) is non-singular by the reference elimination. A key is (coder,d,p,missing set,available-parity set,len,g); trivial = nothing missing",
 		assumptions: append([]string{"PAR2 constants 2^n with n not divisible by 3,5,17,257 and the Cauchy definition 1/((d+i) xor j) are taken from the specification / the documented construction, recomputed in internal/ref/gf16"}, commonAssumptions...),
 		opts:        core.WorkerOpts{CrashIsViolation: true, WallSeconds: 1800, Exhaustive: true, Extra: map[string]interface{}{"exhaustive_subspace": "data shards 1..6 x parity shards 1..4 (thorough: 1..8 x 1..5): all erasure subsets of data and parity, both coders, listed shard lengths and goroutine counts"}},
 	}})
@@ -77,6 +77,25 @@ func (c *c07) Cases(tier string, seed int64) []core.Case {
 var par2Consts = gf16.Par2Constants(32768)
 
 func c07NewCoder(kind string, d, p, g int) (rsec16.Coder, error) {
+	// History: a coder of the OTHER kind with the same geometry is created
+	// (and used once) first, so that anything cached per geometry would be
+	// shared across kinds.
+	if d*p <= 40000 {
+		var other rsec16.Coder
+		var err error
+		if kind == "cauchy" {
+			other, err = rsec16.NewCoderPAR2Vandermonde(d, p, g)
+		} else {
+			other, err = rsec16.NewCoderCauchy(d, p, g)
+		}
+		if err == nil {
+			warm := make([][]byte, d)
+			for i := range warm {
+				warm[i] = []byte{byte(i), 1}
+			}
+			core.Protect(func() { other.GenerateParity(warm) })
+		}
+	}
 	if kind == "cauchy" {
 		return rsec16.NewCoderCauchy(d, p, g)
 	}
